@@ -409,3 +409,203 @@ Definition first_of_each (l : list (nat * nat)) : list (nat * nat) :=
 
 Definition pcheck_case (c : ecase) : list (nat * nat) :=
   first_of_each (pcheck p0 es0 (ec_gens c) (ec_keys c) (ec_steps c) 0).
+
+(* ------------------------------------------------------------------------------------------ *)
+(* fine endpoint schedules: the threaded model (C13_EpFine) against the implementation and the  *)
+(* property read off the event history                                                          *)
+(* ------------------------------------------------------------------------------------------ *)
+From Dae Require Import C13_EpFine.
+
+Inductive fcmd := FStepT (i : nat) | FAtom (o : pop).
+
+Definition fevent := (nat * nat * nat)%type.   (* (0,e,thread) dial  (1,thread,e) hand-out  (2,e,0) write ok
+                                                  (3,e,0) write error  (4,d,0) invalidation  (5,0,0) reset *)
+Definition fv (a b c : nat) : fevent := (a, b, c).
+
+Definition gpc_of (s : fstate) (i : nat) : gpc :=
+  match nth_error (f_thr s) i with Some t => g_pc t | None => GDone (mkER None false 0) end.
+Definition gkey_of (s : fstate) (i : nat) : nat := match nth_error (f_thr s) i with Some t => g_k t | None => 0 end.
+
+(* run thread i to its next yield point, its return, or the creation mutex held by someone else *)
+Fixpoint run_thr (fuel : nat) (s : fstate) (i : nat) : fstate :=
+  match fuel with
+  | 0 => s
+  | S f =>
+      let s' := fstep_thr s i in
+      match gpc_of s' i with
+      | GStart => run_thr f s' i
+      | GWaitLock => match f_lock s' (gkey_of s' i) with Some _ => s' | None => run_thr f s' i end
+      | _ => s'
+      end
+  end.
+
+(* callers blocked on the creation mutex proceed, first come first served, when it is free *)
+Fixpoint fsettle (fuel : nat) (s : fstate) (waiters : list nat) : fstate * list nat :=
+  match fuel with
+  | 0 => (s, waiters)
+  | S f =>
+      match find (fun i => match f_lock s (gkey_of s i) with None => true | Some _ => false end) waiters with
+      | None => (s, waiters)
+      | Some i =>
+          let s' := run_thr 8 s i in
+          let w' := filter (fun j => negb (j =? i)) waiters in
+          let w'' := match gpc_of s' i with GWaitLock => w' ++ [i] | _ => w' end in
+          fsettle f s' w''
+      end
+  end.
+
+Definition fexec (s : fstate) (waiters : list nat) (c : fcmd) : fstate * list nat :=
+  match c with
+  | FStepT i =>
+      match gpc_of s i with
+      | GDone _ => (s, waiters)
+      | GWaitLock => (s, waiters)            (* already blocked: the harness has nothing to release *)
+      | _ =>
+          let s' := run_thr 8 s i in
+          let w := match gpc_of s' i with GWaitLock => waiters ++ [i] | _ => waiters end in
+          fsettle 8 s' w
+      end
+  | FAtom o => fsettle 8 (fstep s (FOp o)) waiters
+  end.
+
+Definition thr_code (s : fstate) (t : gthread) : nat * nat :=
+  match g_pc t with
+  | GStart => (0, 0)
+  | GWaitLock => (1, 0)
+  | GSlow _ => (2, 0)
+  | GHaveGen _ => (3, 0)
+  | GBeforePublish _ => (4, 0)
+  | GBeforeRegister _ => (5, 0)
+  | GDone r => (6, (match r_err r with 0 => 0 | 1 => 2 | _ => 4 end) + (if r_isnew r then 1 else 0))
+  end.
+
+Definition fhandle (p : pstate) (e : nat) : nat := match handle_of p e with Some h => h | None => 9999 end.
+
+(* events of one command, from the state change *)
+Definition fevents (s s' : fstate) (c : fcmd) : list fevent :=
+  let atom := match c with
+              | FAtom (PInval d) => [fv 4 d 0]
+              | FAtom PReset => [fv 5 0 0]
+              | FAtom (PWrite h out) =>
+                  match nth_error (p_handles (f_p s)) h with
+                  | Some e => if existsb (fun x => snd x =? e) (f_hand s)
+                              then [fv (match snd (pstep (f_p s) (PWrite h out)) with mkER _ _ 0 => 2 | _ => 3 end) h 0]
+                              else []
+                  | None => []
+                  end
+              | _ => [] end in
+  atom.
+
+Record fobs := mkFO { fo_cmd : fcmd; fo_thr : list (nat * nat); fo_events : list fevent; fo_dials : nat;
+                      fo_eps : list (nat * nat); fo_pool : list (option (option nat));
+                      fo_tuples : list (nat * nat * nat); fo_drain : list nat }.
+Record fcase := mkFCase { fc_keys : nat; fc_gens : nat; fc_threads : list (nat * nat * nat * nat);
+                          fc_steps : list fobs; fc_final : list nat }.
+Definition th4 (a b c d : nat) : nat * nat * nat * nat := (a, b, c, d).
+
+Definition fevent_eqb (a b : fevent) : bool :=
+  (fst (fst a) =? fst (fst b)) && (snd (fst a) =? snd (fst b)) && (snd a =? snd b).
+
+(* thread events (dials, hand-outs) in the order they happened: the model logs hand-outs in f_hand and
+   dials in p_handles; within one command a dial of thread t precedes t's own hand-out, and the harness
+   order is reproduced by merging per thread in settle order; compare as multisets per command instead *)
+Definition new_hands (s s' : fstate) : list fevent :=
+  map (fun x => fv 1 (fst x) (fhandle (f_p s') (snd x))) (skipn (length (f_hand s)) (f_hand s')).
+Definition new_dials (s s' : fstate) : list fevent :=
+  map (fun h => fv 0 h (match find (fun it => match g_pc (snd it) with
+                                              | GHaveGen e | GBeforePublish e | GBeforeRegister e => fhandle (f_p s') e =? h
+                                              | _ => false end) (indexed 0 (f_thr s')) with
+                        | Some it => fst it | None => 9999 end))
+      (seq (length (p_handles (f_p s))) (length (p_handles (f_p s')) - length (p_handles (f_p s)))).
+
+Definition subset_ev (l1 l2 : list fevent) : bool := forallb (fun x => existsb (fevent_eqb x) l2) l1.
+Definition same_ev (l1 l2 : list fevent) : bool := subset_ev l1 l2 && subset_ev l2 l1 && (length l1 =? length l2).
+
+Definition fstep_ok (s s' : fstate) (c : fcmd) (gens keys : nat) (o : fobs) : bool :=
+  let p' := f_p s' in
+  list_eqb pair_nat_eqb (map (thr_code s') (f_thr s')) (fo_thr o)
+  && same_ev (fevents s s' c ++ new_dials s s' ++ new_hands s s') (fo_events o)
+  && (p_dials p' =? fo_dials o)
+  && list_eqb pair_nat_eqb (m_eps p') (fo_eps o)
+  && list_eqb oo_eqb (map (m_pool p') (seq 0 keys)) (fo_pool o)
+  && forallb (fun g => forallb (fun t =>
+        m_refs p' g t =? match find (fun x => (fst (fst x) =? g) && (snd (fst x) =? t)) (fo_tuples o) with
+                         | Some x => snd x | None => 0 end) (seq 0 8)) (seq 0 gens)
+  && list_eqb Nat.eqb (map (p_drainc p') (seq 0 gens)) (fo_drain o).
+
+(* --- the property on an event history ------------------------------------------------------ *)
+Record sep := mkSE { se_key : nat; se_dialer : nat; se_sent : bool; se_gone : bool }.
+
+(* codes: 1 hand-out of an endpoint that was retired / invalidated before traffic / reset;
+          4 hand-out of an endpoint that is not the live endpoint of the caller's key *)
+Definition hist_step (thr : list (nat * nat * nat * nat)) (st : list sep * list nat) (ev : fevent) : list sep * list nat :=
+  let '(eps, errs) := st in
+  let kd := fun i => match nth_error thr i with Some (k, d, _, _) => (k, d) | None => (0, 0) end in
+  match ev with
+  | (0, e, i) => (eps ++ [mkSE (fst (kd i)) (snd (kd i)) false false], errs)
+  | (1, i, e) =>
+      match nth_error eps e with
+      | Some x => (eps, errs ++ (if se_gone x then [1] else if se_key x =? fst (kd i) then [] else [4]))
+      | None => (eps, errs ++ [4])
+      end
+  | (2, e, _) => (lupd eps e (fun x => mkSE (se_key x) (se_dialer x) true (se_gone x)), errs)
+  | (3, e, _) => (lupd eps e (fun x => mkSE (se_key x) (se_dialer x) (se_sent x) true), errs)
+  | (4, d, _) => (map (fun x => if (se_dialer x =? d) && negb (se_sent x) then mkSE (se_key x) (se_dialer x) false true else x) eps, errs)
+  | (5, _, _) => (map (fun x => mkSE (se_key x) (se_dialer x) (se_sent x) true) eps, errs)
+  | _ => st
+  end.
+
+Definition hist_scan (thr : list (nat * nat * nat * nat)) (evs : list fevent) : list sep * list nat :=
+  fold_left (hist_step thr) evs ([], []).
+
+(* at rest (all callers returned): eps = (dead, closes) per endpoint, pool = handle per key.
+   codes: 6 transport closed more than once; 7 an endpoint that is neither the pool's entry of its key nor
+   closed (nobody can ever close it); 8 a live endpoint (never retired/invalidated/reset) was closed;
+   9 after the final pool reset some endpoint is not closed exactly once *)
+Definition rest_errors (seps : list sep) (eps : list (nat * nat)) (pool : list (option (option nat))) (final : list nat) : list nat :=
+  let in_pool := fun h => existsb (fun x => match x with Some (Some h') => h' =? h | _ => false end) pool in
+  flat_map (fun ih => let h := fst ih in let cl := snd (snd ih) in
+                      (if 1 <? cl then [6] else [])
+                      ++ (if (cl =? 0) && negb (in_pool h) then [7] else [])
+                      ++ (match nth_error seps h with
+                          | Some x => if (cl =? 1) && negb (se_gone x) then [8] else []
+                          | None => [] end)) (indexed 0 eps)
+  ++ (if forallb (Nat.eqb 1) final && (length final =? length eps) then [] else [9]).
+
+(* codes: (n,1) impl<>model at command n; (c,2) impl<>spec; (c,3) model<>spec *)
+Record facc := mkFA { fa_errs : list (nat * nat); fa_s : fstate; fa_w : list nat; fa_n : nat; fa_evs : list fevent }.
+
+Definition freplay_step (gens keys : nat) (a : facc) (o : fobs) : facc :=
+  let s := fa_s a in
+  let sw := fexec s (fa_w a) (fo_cmd o) in
+  let s' := fst sw in
+  let mev := fevents s s' (fo_cmd o) ++ new_dials s s' ++ new_hands s s' in
+  mkFA (fa_errs a ++ (if fstep_ok s s' (fo_cmd o) gens keys o then [] else [(fa_n a, 1)]))
+       s' (snd sw) (S (fa_n a)) (fa_evs a ++ mev).
+
+Definition freplay (s : fstate) (gens keys : nat) (steps : list fobs) : facc :=
+  fold_left (freplay_step gens keys) steps (mkFA [] s [] 0 []).
+
+Definition fcheck_case (c : fcase) : list (nat * nat) :=
+  let acc := freplay (finit (fc_threads c)) (fc_gens c) (fc_keys c) (fc_steps c) in
+  let errs := fa_errs acc in let sf := fa_s acc in let mevs := fa_evs acc in
+  let ievs := flat_map fo_events (fc_steps c) in
+  let '(iseps, ierrs) := hist_scan (fc_threads c) ievs in
+  let '(mseps, merrs) := hist_scan (fc_threads c) mevs in
+  let last := match rev (fc_steps c) with o :: _ => Some o | [] => None end in
+  let irest := match last with
+               | Some o => if forallb (fun x => fst x =? 6) (fo_thr o)
+                           then rest_errors iseps (fo_eps o) (fo_pool o) (fc_final c) else [10]
+               | None => [] end in
+  let mrest := if fquiescent sf
+               then rest_errors mseps (m_eps (f_p sf)) (map (m_pool (f_p sf)) (seq 0 (fc_keys c)))
+                      (map (fun _ => 1) (m_eps (f_p sf)))
+               else [] in
+  first_err errs
+  ++ map (fun e => (e, 2)) (ierrs ++ irest)
+  ++ map (fun e => (e, 3)) (merrs ++ mrest).
+
+Definition fcase_signature (c : fcase) : nat * nat * nat :=
+  let evs := flat_map fo_events (fc_steps c) in
+  (length (filter (fun e => fst (fst e) =? 0) evs), length (filter (fun e => fst (fst e) =? 1) evs),
+   length (filter (fun e => (3 <=? fst (fst e)) && (fst (fst e) <=? 5)) evs)).
